@@ -25,6 +25,7 @@ type Scenario struct {
 	NoFinalClose bool   `json:"no_final_close,omitempty"`
 	NoOracles    bool   `json:"no_oracles,omitempty"` // twin executions only collect streams
 	Diff         string `json:"diff,omitempty"`       // flags | isolation: differential re-execution
+	PureSide     int    `json:"pure_side,omitempty"`  // C20: number of seeded vectors for the non-simulated primitive clause
 }
 
 type Result struct {
@@ -60,6 +61,7 @@ type runner struct {
 	inappAt map[int]int // per client: inapplicable broadcasts already reported
 	strict  bool
 	inBlock bool
+	gridSeen map[string]int
 	desync  bool // the model can no longer follow the server (non-serializable block)
 }
 
@@ -113,6 +115,14 @@ func RunScenario(t *testing.T, sc *Scenario) *Result {
 		}
 		w.Close()
 	})
+	if sc.PureSide > 0 {
+		v, n := primitiveOracle(sc.Seed, sc.PureSide)
+		res.Triggers["pure_clause_evaluations"] += n
+		for _, x := range v {
+			x.Step = len(sc.Steps)
+			res.Violations = append(res.Violations, x)
+		}
+	}
 	if sc.Diff != "" && res.Failure == "" {
 		if len(res.Violations) == 0 {
 			runDiff(t, sc, res)
@@ -392,6 +402,10 @@ func (r *runner) afterRequest(st *Step, c *Client, out *Outcome) {
 		r.checkEnded(c, out.Kind)
 	}
 	r.checkState(out)
+	if r.sc.Family == "grid" {
+		r.checkGridAnswer(st, c, c.NonClock(c.Since()))
+		r.checkGrid(st, c)
+	}
 }
 
 func mergeOthers(m map[int][]Exp, ci int, e []Exp) map[int][]Exp {
